@@ -683,6 +683,7 @@ func runC17(tier string) int {
 	c17FamilyContext(r, tier)
 	c17ManyDataStatements(r, tier)
 	c17ManyScripts(r, tier)
+	pairDataFiles(r, "C17")
 
 	schedWG.Wait()
 	if schedErr != "" {
